@@ -266,9 +266,9 @@ class PIndexPid:
 
 
 # ------------------------------------------------------------------ effects of ALTER statements on the table object
-# SHAPE-BOUNDED: the column list has a fixed length per case (0..3 columns); names, spellings and all attribute
-# values are symbolic, so matching (quoting / case insensitive), position and frame are proved for every content,
-# but not for every list length (search loops with `break` are outside the fold-form loop rule).
+# SHAPE-BOUNDED companions of the any-length contracts further down: the column list has a fixed length per case
+# (1 or 2 columns), names / spellings / attribute values symbolic.  They add nothing to the proof; they are kept
+# because their counter-models replay directly as concrete column lists.
 from contracts.lib import TYPE_TEXT  # noqa: E402
 
 
@@ -305,7 +305,7 @@ def first_match(cols, name):
 class AlterDropColumns:
     fn = "output.base_data.BaseData.alter_drop_columns"
     props = ["C04"]
-    cases = {"%d columns" % n: dict(n=n) for n in (0, 1, 2, 3)}
+    cases = {"%d columns" % n: dict(n=n) for n in (1, 2)}
 
     def build(G, case):
         return dict(args=[table_obj(G, case["n"]), {"columns_to_drop": [quoted(G, "target")[0]], "alter_table_name": G.str("t", NAME), "schema": None}])
@@ -322,7 +322,7 @@ class AlterDropColumns:
 class AlterRenameColumns:
     fn = "output.base_data.BaseData.alter_rename_columns"
     props = ["C04", "C12"]
-    cases = {"%d columns" % n: dict(n=n) for n in (0, 1, 2)}
+    cases = {"%d columns" % n: dict(n=n) for n in (1, 2)}
 
     def build(G, case):
         ren = {"from": quoted(G, "target")[0], "to": G.str("new_name", NAME)}
@@ -345,7 +345,7 @@ class AlterRenameColumns:
 class AlterModifyColumns:
     fn = "output.base_data.BaseData.alter_modify_columns"
     props = ["C04"]
-    cases = {"%d columns" % n: dict(n=n) for n in (0, 1, 2, 3)}
+    cases = {"%d columns" % n: dict(n=n) for n in (1, 2)}
 
     def build(G, case):
         return dict(args=[table_obj(G, case["n"]), {"columns_to_modify": [plain_col(G, "target")], "alter_table_name": G.str("t", NAME), "schema": None}])
@@ -357,3 +357,92 @@ class AlterModifyColumns:
         if i is not None:
             self_.alter["modified_columns"] = self_.columns[i]
             self_.columns[i] = new
+
+
+# ------------------------------------------------------------------ the same effects for a column list of ANY length
+# (search-loop rule: the loop breaks exactly on the elements the predicate selects, other elements change nothing; the
+#  net effect is the loop body executed once on the first matching element, at an unknown position)
+from contracts.lib import first_index, seq_at, seq_remove_at, seq_replace_at  # noqa: E402
+
+
+def light_col(G, name):
+    return {"name": quoted2(G, name), "type": G.str(name + ".type", TYPE_TEXT, "int"), "size": G.int(name + ".size"), "references": None,
+            "unique": G.bool(name + ".unique"), "nullable": G.bool(name + ".nullable"), "default": G.str(name + ".default"), "check": None}
+
+
+def named_like(target):
+    """the column the statement names: same name irrespective of quoting and letter case"""
+    return lambda c: norm(c["name"]) == norm(target)
+
+
+@contract
+class AlterDropColumnsAnyLength:
+    fn = "output.base_data.BaseData.alter_drop_columns"
+    props = ["C04"]
+    cases = {"any number of columns": {}}
+    loops = {"output.base_data.BaseData.alter_drop_columns#1": dict(kind="search", pred="pred", reads=["column_to_drop"])}
+
+    def build(G, case):
+        t = G.obj("BaseData", columns=G.oseq("cols", elem=light_col), alter={}, primary_key=[], table_name=G.str("t", NAME), schema=None)
+        return dict(args=[t, {"columns_to_drop": [quoted(G, "target")[0]], "alter_table_name": G.str("t", NAME), "schema": None}])
+
+    def pred(case, entry):
+        return named_like(entry["column_to_drop"])
+
+    def spec(case, self_, statement):
+        self_.alter["dropped_columns"] = []
+        i = first_index(named_like(statement["columns_to_drop"][0]), self_.columns)
+        if i is not None:
+            self_.alter["dropped_columns"] = seq_at(self_.columns, i)
+            self_.columns = seq_remove_at(self_.columns, i)
+
+
+@contract
+class AlterModifyColumnsAnyLength:
+    fn = "output.base_data.BaseData.alter_modify_columns"
+    props = ["C04"]
+    cases = {"any number of columns": {}}
+    loops = {"output.base_data.BaseData.alter_modify_columns#1": dict(kind="search", pred="pred", reads=["modified_column"])}
+
+    def build(G, case):
+        t = G.obj("BaseData", columns=G.oseq("cols", elem=light_col), alter={}, primary_key=[], table_name=G.str("t", NAME), schema=None)
+        return dict(args=[t, {"columns_to_modify": [light_col(G, "target")], "alter_table_name": G.str("t", NAME), "schema": None}])
+
+    def pred(case, entry):
+        return named_like(entry["modified_column"]["name"])
+
+    def spec(case, self_, statement):
+        new = statement["columns_to_modify"][0]
+        self_.alter["modified_columns"] = []
+        i = first_index(named_like(new["name"]), self_.columns)
+        if i is not None:
+            self_.alter["modified_columns"] = seq_at(self_.columns, i)
+            self_.columns = seq_replace_at(self_.columns, i, new)
+
+
+@contract
+class AlterRenameColumnsAnyLength:
+    fn = "output.base_data.BaseData.alter_rename_columns"
+    props = ["C04", "C12"]
+    cases = {"any number of columns": {}}
+    loops = {"output.base_data.BaseData.alter_rename_columns#1": dict(kind="search", pred="pred", reads=["renamed_column"])}
+
+    def build(G, case):
+        t = G.obj("BaseData", columns=G.oseq("cols", elem=light_col), alter={}, primary_key=[quoted2(G, "pk0")], table_name=G.str("t", NAME), schema=None)
+        ren = {"from": quoted(G, "target")[0], "to": G.str("new_name", NAME)}
+        return dict(args=[t, {"columns_to_rename": [ren], "alter_table_name": G.str("t", NAME), "schema": None}])
+
+    def pred(case, entry):
+        return named_like(entry["renamed_column"]["from"])
+
+    def spec(case, self_, statement):
+        ren = statement["columns_to_rename"][0]
+        i = first_index(named_like(ren["from"]), self_.columns)
+        if i is not None:
+            col = seq_at(self_.columns, i)
+            for k in range(len(self_.primary_key)):
+                if norm(self_.primary_key[k]) == norm(col["name"]):
+                    self_.primary_key[k] = ren["to"]
+            col["name"] = ren["to"]
+            self_.columns = seq_replace_at(self_.columns, i, col)
+        self_.alter["renamed_columns"] = [ren]
